@@ -8,8 +8,19 @@ from .c01 import GenCheck, layout_bytes, read_var, env_of
 CMP = ["==", "!=", "<", "<=", ">", ">="]
 
 
+FB = 100000
+
+
 def rand_atom(rng, names, regs, env_vals, decls):
     kind = rng.random()
+    xs = [n for n, _, f in decls if f == "x"]
+    if xs and kind < 0.3:
+        # fixed-point variable against another one or an integer constant near its value
+        a = rng.choice(xs)
+        if len(xs) > 1 and rng.random() < 0.4:
+            return ["xcmp", rng.choice(CMP), a, ["v", rng.choice([x for x in xs if x != a])]]
+        near = env_vals[a] // FB
+        return ["xcmp", rng.choice(CMP), a, ["c", rng.choice([near, near + 1, near - 1, 0, 0, 1, -1])]]
     if kind < 0.7:
         a = exprs.rand_leaf(rng, names, regs, allow_const=False)
         if rng.random() < 0.5:
@@ -68,12 +79,15 @@ class C03(GenCheck):
             fmt = rng.choice(exprs.FMTS)
             decls.append((f"v{k}", rng.choice(["local", "array"]), fmt))
             values[f"v{k}"] = exprs.rand_value(rng, fmt)
+        for k in range(rng.choice([0, 0, 1, 2])):
+            decls.append((f"x{k}", rng.choice(["local", "array"]), "x"))
+            values[f"x{k}"] = rng.choice([0, 150000, -150000, -1, 1, 200000, -275000, 4295067296, -4295067296, rng.randint(-10 ** 7, 10 ** 7)])
         regs, reginit = [], {}
         for no in rng.sample([2, 3], rng.randint(0, 1)):
             kind = rng.choice(["r", "sr"])
             regs.append((kind, no))
             reginit[no] = rng.choice(exprs.BOUNDARY64 + [rng.randint(-100, 100)])
-        names = [n for n, _, _ in decls]
+        names = [n for n, _, f in decls if f != "x"]
         env = exprs.Env({n: (s, f, values[n]) for n, s, f in decls}, reginit)
 
         def mk():
@@ -131,6 +145,9 @@ class C03(GenCheck):
             return f"(COr {self.ccond(case, c[1])} {self.ccond(case, c[2])})"
         if c[0] == "not":
             return f"(CNot {self.ccond(case, c[1])})"
+        if c[0] == "xcmp":
+            rhs = ["c", c[3][1] * FB] if c[3][0] == "c" else c[3]          # comparison() scales the integer side
+            return f"(CAtom (cmp_impl {self.CMPN[c[1]]} {self.c01.cexpr(case, ['v', c[2]])} {self.c01.cexpr(case, rhs)}))"
         if c[0] in ("bit", "truth"):
             x = self.c01.fold(c[1])
             if x[0] == "&":
@@ -189,6 +206,10 @@ class C03(GenCheck):
         if c[0] == "not":
             a, oa = self.truth(c[1], env)
             return (not a), oa
+        if c[0] == "xcmp":
+            a = env.vars[c[2]][2]
+            b = c[3][1] * FB if c[3][0] == "c" else env.vars[c[3][1]][2]
+            return {"==": a == b, "!=": a != b, "<": a < b, "<=": a <= b, ">": a > b, ">=": a >= b}[c[1]], True
         if c[0] in ("bit", "truth"):
             W = 32 if any((exprs.leaf_info(l, env)[0] or 8) <= 4 for l in exprs.leaves(c[1])) else 64
             vals, ok, _ = exprs.meaning(c[1], env, W)
